@@ -68,8 +68,206 @@ impl Inspect for (IpcSender<u64>, IpcSender<u64>) {
     }
 }
 
-pub const TYPES: [&str; 13] = ["u8", "u64", "i32", "String", "Vec<u8>", "Vec<String>", "Option<(u32,String)>", "enum", "IpcSender", "IpcReceiver",
-    "IpcSharedMemory", "Nested{Vec<IpcSender>,Vec<IpcSharedMemory>,String,Option<IpcReceiver>}", "(IpcSender,IpcSender)"];
+/// Field whose decoding receives from the channel it was just handed (a receive inside a
+/// deserialisation): the inner message is decoded while the outer one still has unclaimed
+/// attachments. What the inner decode returned is left in INNER_SEEN.
+pub struct InnerRecv;
+pub enum InnerSeen {
+    Empty,
+    Err(String),
+    Ok(IpcSender<u64>),
+}
+thread_local! { static INNER_SEEN: std::cell::RefCell<Vec<InnerSeen>> = const { std::cell::RefCell::new(Vec::new()) }; }
+impl Serialize for InnerRecv {
+    fn serialize<S: serde::Serializer>(&self, s: S) -> Result<S::Ok, S::Error> {
+        s.serialize_unit()
+    }
+}
+impl<'de> Deserialize<'de> for InnerRecv {
+    fn deserialize<D: serde::Deserializer<'de>>(d: D) -> Result<Self, D::Error> {
+        let rx = IpcReceiver::<IpcSender<u64>>::deserialize(d)?;
+        let seen = match rx.try_recv() {
+            Ok(s) => InnerSeen::Ok(s),
+            Err(ipc_channel::ipc::TryRecvError::Empty) => InnerSeen::Empty,
+            Err(e) => InnerSeen::Err(format!("{:?}", e)),
+        };
+        INNER_SEEN.with(|i| i.borrow_mut().push(seen));
+        Ok(InnerRecv)
+    }
+}
+#[derive(Serialize, Deserialize)]
+pub struct Outer {
+    head: IpcSender<u64>,
+    inner: InnerRecv,
+    tail: IpcSender<u64>,
+}
+
+fn lands_at(s: &IpcSender<u64>, n: u64, places: &[(&str, &OsIpcReceiver)]) -> String {
+    let sent = s.send(n).is_ok();
+    let want = bincode::serialize(&n).unwrap();
+    for (name, rx) in places {
+        if matches!(rx.try_recv(), Ok((d, _, _)) if d == want) {
+            return name.to_string();
+        }
+    }
+    if sent { "nowhere-known".into() } else { "send-failed".into() }
+}
+
+/// Nested decode: the outer message (head sender, a receiver, tail sender) is well formed; the
+/// inner message waiting on that receiver is a mismatched payload for its expected type
+/// (`IpcSender<u64>`): an index with no attachment behind it, or with one attachment of its own.
+fn nested_case(ctx: &Ctx, case: u64, r: &mut Rng, h: &mut Harness) {
+    let rep = &ctx.rep;
+    let base_fds = fd_count();
+    let mut problems: Vec<(String, Value)> = Vec::new();
+    let (head_tx, head_rx) = platform::channel().expect("channel");
+    let (inner_tx, inner_rx) = platform::channel().expect("channel");
+    let (tail_tx, tail_rx) = platform::channel().expect("channel");
+    let (own_tx, own_rx) = platform::channel().expect("channel");
+    let inner_present = r.chance(900);
+    let inner_own = r.chance(350);
+    let inner_idx: u64 = if inner_own && r.chance(500) { 0 } else { *r.pick(&[0u64, 1, 2, 2, 3, u64::MAX]) };
+    let mut own_tx = Some(own_tx);
+    if inner_present {
+        let chans = if inner_own { vec![OsIpcChannel::Sender(own_tx.take().unwrap())] } else { vec![] };
+        if let Err(e) = inner_tx.send(&bincode::serialize(&inner_idx).unwrap(), chans, vec![]) {
+            rep.inconclusive(&format!("c16 nested case {}: inner injection failed: {}", case, e));
+            return;
+        }
+    }
+    drop(own_tx);
+    let via_set = r.chance(300);
+    let bytes = bincode::serialize(&(0u64, 1u64, 2u64)).unwrap();
+    if let Err(e) = h.raw.send(&bytes, vec![OsIpcChannel::Sender(head_tx), OsIpcChannel::Receiver(inner_rx), OsIpcChannel::Sender(tail_tx)], vec![]) {
+        rep.inconclusive(&format!("c16 nested case {}: raw injection failed: {}", case, e));
+        return;
+    }
+    INNER_SEEN.with(|i| i.borrow_mut().clear());
+    let before_panics = panic_count();
+    let res = std::panic::catch_unwind(std::panic::AssertUnwindSafe(|| -> Result<Outer, String> {
+        let opaque = h.opaque.take().unwrap();
+        if via_set {
+            let mut set = IpcReceiverSet::new().expect("set");
+            set.add_opaque(opaque).expect("add");
+            let mut out = Err("no message".to_string());
+            for ev in set.select().map_err(|e| e.to_string())? {
+                if let IpcSelectionResult::MessageReceived(_, om) = ev {
+                    out = om.to::<Outer>().map_err(|e| e.to_string());
+                }
+            }
+            out
+        } else {
+            let rx: IpcReceiver<Outer> = opaque.to();
+            let v = rx.try_recv().map_err(|e| format!("{:?}", e));
+            h.opaque = Some(rx.to_opaque());
+            v
+        }
+    }));
+    if h.opaque.is_none() {
+        *h = Harness::new();
+    }
+    let places = [("outer-head", &head_rx), ("outer-tail", &tail_rx), ("inner-own", &own_rx)];
+    let mut outcome = "ok";
+    match res {
+        Err(_) => outcome = "panic",
+        Ok(Err(e)) => {
+            outcome = "err";
+            problems.push(("well-formed-enclosing-message-failed-to-decode".into(), json!({"error": e})));
+        },
+        Ok(Ok(o)) => {
+            let a = lands_at(&o.head, case << 16, &places);
+            let b = lands_at(&o.tail, (case << 16) + 1, &places);
+            if a != "outer-head" || b != "outer-tail" {
+                problems.push(("enclosing-message-endpoints-misplaced".into(), json!({"head_lands_at": a, "tail_lands_at": b})));
+            }
+        },
+    }
+    if outcome == "panic" || panic_count() > before_panics {
+        let p = take_panics();
+        let at = p.last().cloned().unwrap_or_default();
+        let loc = at.split(" at ").nth(1).and_then(|s| s.split(' ').next()).unwrap_or("?").replace("/repo/", "");
+        let loc_file = loc.split(':').next().unwrap_or("?").to_string();
+        problems.push((format!("panic:{}:nested", loc_file), json!({"panic": at})));
+    }
+    let seen: Vec<InnerSeen> = INNER_SEEN.with(|i| i.borrow_mut().drain(..).collect());
+    let mut inner_outcome = "not-reached".to_string();
+    for s in &seen {
+        match s {
+            InnerSeen::Empty => {
+                inner_outcome = "empty".into();
+                if inner_present {
+                    problems.push(("inner-message-not-delivered".into(), json!({})));
+                }
+            },
+            InnerSeen::Err(e) => {
+                inner_outcome = "err".into();
+                if inner_present && inner_own && inner_idx == 0 {
+                    problems.push(("well-formed-inner-message-failed-to-decode".into(), json!({"error": e})));
+                }
+            },
+            InnerSeen::Ok(s) => {
+                inner_outcome = "ok".into();
+                let at = lands_at(s, (case << 16) + 2, &places);
+                if !(inner_present && inner_own && inner_idx == 0 && at == "inner-own") {
+                    problems.push(("nested-decode-yielded-endpoint-that-was-not-attached-to-that-message".into(),
+                        json!({"inner_index": inner_idx, "inner_attachments": if inner_own {1} else {0}, "endpoint_belongs_to": at})));
+                }
+            },
+        }
+    }
+    drop(seen);
+    if outcome != "panic" {
+        // every handle the decode produced is gone now; nothing of either message may be kept
+        for (name, rx) in places.iter() {
+            let mut closed = false;
+            for _ in 0..8 {
+                match rx.try_recv() {
+                    Ok(_) => continue,
+                    Err(e) => {
+                        closed = e.channel_is_closed();
+                        break;
+                    },
+                }
+            }
+            if !closed {
+                problems.push(("attached-sender-kept-open".into(), json!({"which": name})));
+            }
+        }
+        if !inner_present && inner_tx.send(&[0u8; 8], vec![], vec![]).is_ok() {
+            // the receiver travelled in the outer message and was dropped after decoding
+            problems.push(("attached-receiver-kept-open".into(), json!({"which": "inner"})));
+        }
+    }
+    drop(inner_tx);
+    drop(head_rx);
+    drop(tail_rx);
+    drop(own_rx);
+    let now = fd_count();
+    if outcome != "panic" && !via_set && now != base_fds {
+        problems.push(("descriptors-not-released".into(), json!({"before": base_fds, "after": now})));
+    }
+    rep.case(&("nested", inner_present, inner_own, inner_idx.min(4), via_set), true);
+    rep.stat("inputs", 1);
+    rep.stat("nested_decodes", 1);
+    rep.stat(&format!("nested_inner_{}", inner_outcome), 1);
+    rep.stat(&format!("outcome_{}", outcome), 1);
+    let base = json!({"case": case, "expected_type": TYPES[13], "input": "nested-mismatched-inner", "inner_present": inner_present, "inner_index": inner_idx,
+        "inner_attachments": if inner_own {1} else {0}, "via": if via_set {"receiver-set"} else {"try_recv"}, "outcome": outcome, "inner_outcome": inner_outcome,
+        "release": !cfg!(debug_assertions)});
+    let mut seen_k = std::collections::BTreeSet::new();
+    for (k, d) in problems {
+        if seen_k.insert(k.clone()) {
+            rep.violation(&format!("C16:{}", k), json!({"ctx": base, "problem": d}), ctx.replay(case));
+        }
+    }
+    if case % 7 == 0 {
+        rep.sample(json!({"ctx": base, "clean": seen_k.is_empty()}));
+    }
+}
+
+pub const TYPES: [&str; 14] = ["u8", "u64", "i32", "String", "Vec<u8>", "Vec<String>", "Option<(u32,String)>", "enum", "IpcSender", "IpcReceiver",
+    "IpcSharedMemory", "Nested{Vec<IpcSender>,Vec<IpcSharedMemory>,String,Option<IpcReceiver>}", "(IpcSender,IpcSender)",
+    "Outer{IpcSender, field-that-receives-an-IpcSender-from-the-receiver-it-decodes, IpcSender}"];
 
 /// Attachments of one injected message with the counterparts the harness keeps.
 pub struct Attached {
@@ -373,7 +571,14 @@ pub fn run(ctx: &Ctx) {
         rep.raw(json!({"t":"journal","case":case}));
         let _g = op_begin("decode-injected-message", case);
         let mut r = Rng::derive(ctx.seed, 0xc16, case);
-        let ty = r.below(13) as usize;
+        let ty = r.below(14) as usize;
+        if ty == 13 {
+            nested_case(ctx, case, &mut r, &mut h);
+            if rep.nviol.load(std::sync::atomic::Ordering::Relaxed) >= 60 {
+                break;
+            }
+            continue;
+        }
         let input_kind = r.below(6) as u8; // 0 random bytes, 1 valid, 2 mutated valid, 3 tampered indices, 4 valid encoding of another type, 5 receive-and-drop
         let nchan = if r.chance(300) { 0 } else { r.below(9) as usize };
         let nreg = if r.chance(400) { 0 } else { r.below(9 - nchan.min(8) as u64) as usize };
